@@ -5,7 +5,7 @@ import json, os, shutil, subprocess, sys, glob, re
 ENV = dict(os.environ, GOFLAGS="-mod=mod", GOPROXY="off", GOSUMDB="off", GOTOOLCHAIN="local")
 W = os.environ.get("SCRATCH", "/tmp/w0")
 def sh(cmd, cwd=W, timeout=600):
-    p = subprocess.run(cmd, shell=True, cwd=cwd, env=ENV, capture_output=True, text=True, timeout=timeout)
+    p = subprocess.run(cmd, shell=True, cwd=cwd, env=ENV, capture_output=True, text=True, errors="replace", timeout=timeout)
     return p.returncode, (p.stdout + p.stderr)
 def reset():
     head = subprocess.check_output("git -C /repo rev-parse HEAD", shell=True, text=True).strip()
